@@ -30,10 +30,10 @@ P = {
    text="After every call the referrer lists (all keys via the read-only hook, plus get_references_to) are compared with the multiset of reference elements found by walking the tree; check_references and get_reference_target are compared with an independent resolution. Thorough repeats the quick workload in an AddressSanitizer build. In addition every history of 3 calls (thorough: 4, evenly spaced beyond the cap) over a fixed small universe with colliding names is executed with the same monitors after every call (bounded exhaustive part, see DESIGN 11.8).",
    note="uses hook verif_reference_origins(); dead weak entries are not judged", ref="5/C05"),
  "C06": dict(engine="HIST", technique="runtime pre/post monitor around rename/move: same-target-object oracle over the whole reference graph",
-   text="Before each rename/move the harness resolves every reference to its target object with its own index; afterwards references that designated the renamed/moved element or its descendants must designate the same objects, all others keep their text. In addition every history of 3 calls (thorough: 4, evenly spaced beyond the cap) over a fixed small universe with colliding names is executed with the same monitors after every call (bounded exhaustive part, see DESIGN 11.8).",
+   text="Before each rename/move the harness resolves every reference to its target object with its own index; afterwards references that designated the renamed/moved element or its descendants must designate the same objects, all others keep their text. In addition every history of 3 calls (thorough: 4, evenly spaced beyond the cap) over a fixed small universe with colliding names is executed with the same monitors after every call (bounded exhaustive part, see DESIGN 11.8). Thorough repeats the quick workload in an AddressSanitizer build.",
    note="resolution by harness-side index, not by the crate's cache", ref="5/C06"),
  "C07": dict(engine="HIST", technique="runtime monitor: independent pairwise order model vs calc_element_insert_range/create_*_at/list_valid_sub_elements; serialize→lenient-load validator agreement",
-   text="On API-built models over all element types and versions the insertion range, create-at success and allowed-list are compared with a pairwise reference order model; after every successful call every value must lie in its value space (length limit, pattern, enum item valid in the version, kind) and every identifiable element must have its SHORT-NAME; serialized output is re-validated by the lenient loader and compared with the original content. Quick visits every element type twice; types with unusual naming rules (identifiable with mixed content, identifiable in some versions only) get extra cases and a directed sequence of calls against their SHORT-NAME; a directed sweep copies every enumeration-typed element whose value exists in some versions only into a model of a version that lacks it.",
+   text="On API-built models over all element types and versions the insertion range, create-at success and allowed-list are compared with a pairwise reference order model; after every successful call every value must lie in its value space (length limit, pattern, enum item valid in the version, kind) and every identifiable element must have its SHORT-NAME; serialized output is re-validated by the lenient loader and compared with the original content. Quick visits every element type twice; types with unusual naming rules (identifiable with mixed content, identifiable in some versions only) get extra cases and a directed sequence of calls against their SHORT-NAME; a directed sweep copies every enumeration-typed element whose value exists in some versions only into a model of a version that lacks it. Thorough repeats the quick workload in an AddressSanitizer build.",
    note="order model uses find_common_group/multiplicity tables of the specification crate (trusted, subject of C18)", ref="5/C07"),
  "C08": dict(engine="DOC", technique="runtime differential monitor strict vs lenient; single-defect injection with table-derived expectation",
    text="Every input of the DOC corpora is loaded in both modes and the outcomes are compared (Ok⇔Ok+no warnings, first warning = strict error, same model); documents with exactly one injected, table-derived constraint violation must be rejected by strict loading. Thorough repeats the quick workload in an AddressSanitizer build. For every one of the 28 patterns of the specification, at element and attribute sites whose minimal document is accepted strictly with a member of the pattern, every non-member derived from the pattern's minimal automaton (all short words over one printable representative per byte class, every access string extended by one and two symbols) must be rejected by strict loading.",
@@ -45,7 +45,7 @@ P = {
    text="After every call of file-set histories on 1-4 file models the membership invariants, per-file serialization vs projection and self-containedness are checked; remove_file must remove exactly the elements attributed to that file alone. Thorough repeats the quick workload in an AddressSanitizer build. In addition every history of 3 calls (thorough: 4, evenly spaced beyond the cap) over a fixed small universe with colliding names is executed with the same monitors after every call (bounded exhaustive part, see DESIGN 11.8).",
    note="per-file text is read back with the crate's own lenient loader and compared with the harness projection", ref="5/C10"),
  "C11": dict(engine="HIST", technique="runtime monitor: full-state snapshot before/after every failing call (hostile-argument generator)",
-   text="A canonical snapshot (tree with values, files, membership, path index, referrer lists via hook) is taken before every call; whenever the call returns Err the snapshot afterwards must be identical. A directed sweep adds failing create calls for element types round-robin over the whole specification, in old and new versions, with every sub element name the type lists in any version. In addition every history of 3 calls (thorough: 4, evenly spaced beyond the cap) over a fixed small universe with colliding names is executed with the same monitors after every call (bounded exhaustive part, see DESIGN 11.8).",
+   text="A canonical snapshot (tree with values, files, membership, path index, referrer lists via hook) is taken before every call; whenever the call returns Err the snapshot afterwards must be identical. A directed sweep adds failing create calls for element types round-robin over the whole specification, in old and new versions, with every sub element name the type lists in any version. In addition every history of 3 calls (thorough: 4, evenly spaced beyond the cap) over a fixed small universe with colliding names is executed with the same monitors after every call (bounded exhaustive part, see DESIGN 11.8). Thorough repeats the quick workload in an AddressSanitizer build.",
    note="disk writes excluded; snapshot covers what the property calls observable", ref="5/C11"),
  "C12": dict(engine="HIST", technique="runtime monitor: catch_unwind + single-thread self-deadlock detector in the lock shim (+ Miri on a small API tour in thorough); process aborts on deep models are observed by the child processes of C02",
    text="The whole public API is driven with hostile arguments and stale/foreign handles on generated, loaded (lenient) and merged models; panics, aborts, unsatisfiable blocking lock requests by the only thread and ParentElementLocked results are violations.",
@@ -111,7 +111,7 @@ man = {
         {"name": "TABLE", "path": "harness/src/c18.rs harness/src/c19.rs harness/src/c20.rs", "serves_properties": ["C18", "C19", "C20"], "kind_free_text": "exhaustive/bounded table sweeps with independent oracles"},
         {"name": "HIST", "path": "harness/src/hist.rs harness/src/histprops.rs harness/src/histprops2.rs harness/src/monitors.rs harness/src/c07.rs harness/src/c14perm.rs", "serves_properties": ["C03", "C04", "C05", "C06", "C07", "C10", "C11", "C12", "C13", "C14"], "kind_free_text": "generated API histories with invariant monitors after every call"},
         {"name": "DOC", "path": "harness/src/c01.rs harness/src/c02.rs harness/src/c08.rs harness/src/c09.rs harness/src/c17.rs harness/src/refxml.rs harness/src/docgen.rs", "serves_properties": ["C01", "C02", "C08", "C09", "C17"], "kind_free_text": "generated/mutated documents through load/serialize with reference reader and differential oracles"},
-        {"name": "SAN", "path": "harness/src/san.rs", "serves_properties": ["C01", "C02", "C03", "C04", "C05", "C08", "C09", "C10", "C12", "C13", "C14", "C15", "C17", "C18"], "kind_free_text": "sanitizer add-on of the thorough tiers: Miri on small monitored workloads, AddressSanitizer rebuild repeating the quick workload; reports become violations, tooling problems are recorded and never change a verdict"},
+        {"name": "SAN", "path": "harness/src/san.rs", "serves_properties": ["C01", "C02", "C03", "C04", "C05", "C06", "C07", "C08", "C09", "C10", "C11", "C12", "C13", "C14", "C15", "C17", "C18"], "kind_free_text": "sanitizer add-on of the thorough tiers: Miri on small monitored workloads, AddressSanitizer rebuild repeating the quick workload; reports become violations, tooling problems are recorded and never change a verdict"},
         {"name": "SCHED", "path": "harness/src/sched.rs harness/src/schedprops.rs harness/src/lockmon.rs", "serves_properties": ["C15", "C16"], "kind_free_text": "lock shim + serialising scheduler over real threads"},
     ],
     "checks": checks,
